@@ -305,10 +305,8 @@ Definition in_domain (c : acase) : bool :=
 Definition final_model (c : acase) : astate := fst (fst (arun (abase c) (ah_ops c) [])).
 Definition ispace (c : acase) (x : sp) : list item * list (N * N) :=
   match index_space (get_sp (a_m (final_model c)) x) with Ok r => r | Panic _ => ([], []) end.
-(* D06: an import added after parsing and then deleted stays in the index space *)
-Definition known_D06 (c : acase) : bool :=
-  existsb (fun x => let s := get_sp (a_m (final_model c)) x in
-             existsb (fun i => is_import i && it_del i) (skipn (N.to_nat (s_num s - s_added s)) (s_items s))) [SF; SG; SM].
+(* D06 (an import added after parsing and then deleted stayed in the index space) is repaired: recalculate_ids
+   drops every deleted item; the class is gone. *)
 (* D24: iterator-level add_global followed by add_imported_global: the returned id collides *)
 Fixpoint after_a (p q : aop -> bool) (h : list aop) : bool :=
   match h with [] => false | o :: h' => (p o && existsb q h') || after_a p q h' end.
@@ -326,7 +324,7 @@ Definition cls (c : acase) (l : list (N * (acase -> bool))) : list N :=
   flat_map (fun kp : N * (acase -> bool) => if snd kp c then [fst kp] else []) l.
 
 Definition verdict30 (c : acase) : Util.verdict :=
-  (agree c, in_domain c, holds c, cls c [K 6 known_D06; K 24 known_D24; K 300 known_300]).
+  (agree c, in_domain c, holds c, cls c [K 24 known_D24; K 300 known_300]).
 Definition report_C30 := run_report verdict30.
 
 (* ------------------------------------------------------------------------------------------ *)
